@@ -40,7 +40,7 @@ open Dhcp.Client
 def parseEvKind (matchNil : Bool) : String → Option Timed.EvKind
   | "acc" => some .acc
   | "rej" => some (if matchNil then .acc else .rej)
-  | "ix" | "ig" | "io" | "ih" | "ih0" | "ih3" | "ih5" | "ihx" | "ie" => some .irr
+  | "ix" | "ig" | "io" | "ih" | "ih0" | "ih3" | "ih5" | "ihx" | "ie" | "ib0" | "ib8" => some .irr
   | "can" | "cdl" => some .cancel
   | "clo" => some .close
   | _ => none
